@@ -203,6 +203,59 @@ func c19Check(work string, cs c19Case) (kind, detail, outcome string) {
 			}
 		}
 		return "", "", outcome
+	case "split":
+		// -s: every result goes to a file of its own, named after its position; exit 0 promises that each file holds its result
+		var names []string
+		for i, f := range cs.Files {
+			n := fmt.Sprintf("in%d.yaml", i)
+			os.WriteFile(filepath.Join(dir, n), []byte(c19FileText(f)), 0o644)
+			names = append(names, n)
+		}
+		args := append([]string{"-o=" + cs.Format, "-s", `"res" + $index`, cs.Expr}, names...)
+		_, serr, exit, err := c10RunYq(dir, args...)
+		if err != nil {
+			return "hang", err.Error(), ""
+		}
+		outcome = fmt.Sprintf("exit=%d err=%d", exit, len(serr))
+		facts := c19GetFacts(cs.Files, cs.Expr)
+		if exit != 0 && strings.TrimSpace(serr) == "" {
+			return "silent-failure", fmt.Sprintf("exit %d with nothing on stderr", exit), outcome
+		}
+		if !facts.parseOK || facts.failed {
+			if exit == 0 {
+				return "exit0-despite-failure", "a document fails to decode or to evaluate, or the expression does not parse, but yq -s exits 0", outcome
+			}
+			return "", "", outcome
+		}
+		if exit == 0 {
+			ext := map[string]string{"yaml": "yml", "json": "json"}[cs.Format]
+			for i, r := range facts.results {
+				b, rerr := os.ReadFile(filepath.Join(dir, fmt.Sprintf("res%d.%s", i, ext)))
+				if rerr != nil {
+					return "split-file-missing", fmt.Sprintf("exit 0 but result %d of %d has no file: %v", i, len(facts.results), rerr), outcome
+				}
+				var leaves []string
+				var collect func(v *val.V)
+				collect = func(v *val.V) {
+					if v.IsScalar() {
+						if v.K == val.Str || v.K == val.Int {
+							leaves = append(leaves, v.S)
+						}
+						return
+					}
+					for _, c := range v.Vals {
+						collect(c)
+					}
+				}
+				collect(r)
+				for _, leaf := range leaves {
+					if !strings.Contains(string(b), leaf) {
+						return "result-dropped", fmt.Sprintf("exit 0 but the scalar %q of result %d is not in its file, which holds %q", leaf, i, clip(string(b), 200)), outcome
+					}
+				}
+			}
+		}
+		return "", "", outcome
 	case "null-input":
 		// -n: no input is read – stdin holds garbage that would not decode
 		args := append([]string{"-n"}, cs.Extra...)
@@ -332,7 +385,7 @@ func c19Run(c *fw.Ctx) error {
 			}
 		}
 	}
-	c.Res.Bound = fmt.Sprintf("%d input histories x %d expressions x %d output formats x %d flag sets (full product; -C with the two encoders that have colours), -n with undecodable stdin, automatic format choice for every extension and every pair of extensions, and with stdin as the first input; -i against the same command without it (8 documents x 8 expressions x {-, -e})", len(hist), len(c19Exprs), len(c19Formats), len(c19FlagSets))
+	c.Res.Bound = fmt.Sprintf("%d input histories x %d expressions x %d output formats x %d flag sets (full product; -C with the two encoders that have colours), -s with one file per result (every history of one file x 6 expressions x 2 formats), -n with undecodable stdin, automatic format choice for every extension and every pair of extensions, and with stdin as the first input; -i against the same command without it (8 documents x 8 expressions x {-, -e})", len(hist), len(c19Exprs), len(c19Formats), len(c19FlagSets))
 	var idx int64
 	run := func(cs c19Case, order int64) {
 		idx++
@@ -355,21 +408,17 @@ func c19Run(c *fw.Ctx) error {
 		sig := kind + "/" + cs.Format + "/" + cs.Expr
 		if cs.Section != "product" {
 			sig = kind + "/" + strings.Join(cs.Extra, ",")
+			if cs.Section == "split" {
+				sig = kind + "/-s/" + cs.Format + "/" + cs.Expr
+			}
 		}
 		c.Violation(sig, order, cs, detail)
 	}
 	for hi, h := range hist {
-		for _, e := range c19Exprs {
-			for _, f := range c19Formats {
-				for _, fl := range c19FlagSets {
-					if len(fl) == 1 && fl[0] == "-C" && f != "yaml" && f != "json" {
-						continue // the other encoders have no colours
-					}
-					nd := 0
-					for _, x := range h {
-						nd += len(x)
-					}
-					run(c19Case{Section: "product", Files: h, Expr: e, Format: f, Flags: fl}, int64(nd)*1e6+int64(hi))
+		if len(h) == 1 && len(h[0]) == 2 || hi < len(c19Docs) {
+			for _, e := range []string{".", ".[]", ".a", ".c", "select(.a)", ".. | select(tag == \"!!str\")"} {
+				for _, f := range []string{"yaml", "json"} {
+					run(c19Case{Section: "split", Files: h, Expr: e, Format: f, Extra: []string{"-s"}}, int64(len(h[0]))*1e6+int64(hi))
 				}
 			}
 		}
@@ -391,6 +440,23 @@ func c19Run(c *fw.Ctx) error {
 		run(c19Case{Section: "auto-format-stdin", Expr: ".", Extra: []string{e1}}, 15)
 		for _, e2 := range exts {
 			run(c19Case{Section: "auto-format", Expr: ".", Extra: []string{e1, e2}}, 20)
+		}
+	}
+	// the full product comes last: should the time budget end the enumeration, the small sections above are complete
+	for hi, h := range hist {
+		for _, e := range c19Exprs {
+			for _, f := range c19Formats {
+				for _, fl := range c19FlagSets {
+					if len(fl) == 1 && fl[0] == "-C" && f != "yaml" && f != "json" {
+						continue // the other encoders have no colours
+					}
+					nd := 0
+					for _, x := range h {
+						nd += len(x)
+					}
+					run(c19Case{Section: "product", Files: h, Expr: e, Format: f, Flags: fl}, int64(nd)*1e6+int64(hi))
+				}
+			}
 		}
 	}
 	return nil
